@@ -36,7 +36,7 @@ var exprTable = []exprT{
 }
 
 var staticPool = []string{"a", "b", "users", "api", "v1", "a.b", "a+b", "(a)", "a$", "a*", "x-y", "~u", "p%41", "A", "index.html", "a!", "q=1", "a;b", "'q'", "@me", "a_b", "0"}
-var phPool = []string{"q", "a", "b", "", "x%41y", "%2F", "%zz", "a.b", "\xc3\xa9", "a b", "v1", "%", "%4", "users", "{x}", "?a", "a+b", "(a)", "..", "a%2Fb", "%C3%A9"}
+var phPool = []string{"q", "a", "b", "", "x%41y", "%2F", "%zz", "a.b", "%2541", "50%25", "%252F", "a%20", "%25zz", "\xc3\xa9", "a b", "v1", "%", "%4", "users", "{x}", "?a", "a+b", "(a)", "..", "a%2Fb", "%C3%A9"}
 
 type segGen struct {
 	seg    aSeg
